@@ -397,7 +397,10 @@ RTRLIB_EXPORT int pfx_table_validate_r(struct pfx_table *pfx_table, struct pfx_r
 	}
 
 	while (!pfx_table_elem_matches(node->data, asn, prefix_len)) {
-		if (lrtr_ip_addr_is_zero(lrtr_ip_addr_get_bits(
+		if (lvl >= (prefix->ver == LRTR_IPV4 ? 32u : 128u)) {
+			// node holds a host prefix at the maximum depth: nothing below it
+			node = NULL;
+		} else if (lrtr_ip_addr_is_zero(lrtr_ip_addr_get_bits(
 			    prefix, lvl++,
 			    1))) //post-incr lvl, trie_lookup is performed on child_nodes => parent lvl + 1
 			node = trie_lookup(node->lchild, prefix, prefix_len, &lvl);
